@@ -2,8 +2,10 @@ SPECIFICATION Spec
 CONSTANTS
   Cons <- NegCons
   Terms = {"semi"}
-  MaxE = 3
-  MaxS = 3
+  MaxE = 2
+  MaxS = 2
   MaxX = 0
-  MaxStack = 3
+  MaxP = 0
+  MaxL = 0
+  MaxTop = 2
 CHECK_DEADLOCK FALSE
